@@ -22,7 +22,7 @@ func init() {
 	fw.Register(&fw.Property{
 		ID:    "C11",
 		Level: "fault_enumeration",
-		Rule: "ENUMERATED single cancellation points x ordinal: a writer log of 6-80 entries (long ones exceed the 32 fetch slots) is requested by a replica through Sync; the request's context is cancelled at a chosen point: {already cancelled, repl.before-slot (k-th arrival, also while all slots are held by blocked fetches), repl.after-slot (slot held, replicator lock not yet taken), repl.after-dequeue, repl.before-fetch, mid-fetch (remote block fetch held by the gate, then cancel), repl.after-fetch, repl.before-done, merge.after-join, deadline expiry, injected fetch error at the k-th remote fetch}; 1-3 aborted requests in sequence or overlapping (pairs sampled), and sequences of 40 aborted requests at one point (more than the 32 fetch slots), then a final uncancelled request for the same or newer heads. LOAD requests: a persisted log of 6-80 entries (one head, or a local and a replicated head) is reopened with an entry codec (CreateDBOptions.IO) that, at the k-th entry read of the request, cancels it / fails that read / fails that block for the rest of the request, or the request carries a 50-450 us deadline; 1-3 aborted Load(-1) calls, optionally newer entries persisted through a sibling handle, then a final uncancelled Load(-1). " +
+		Rule: "ENUMERATED single cancellation points x ordinal: a writer log of 6-80 entries (long ones exceed the 32 fetch slots) is requested by a replica through Sync; the request's context is cancelled at a chosen point: {already cancelled, repl.before-slot (k-th arrival, also while all slots are held by blocked fetches), repl.after-slot (slot held, replicator lock not yet taken), repl.after-dequeue, repl.before-fetch, mid-fetch (remote block fetch held by the gate, then cancel), repl.after-fetch, repl.before-done, merge.after-join, deadline expiry, injected fetch error at the k-th remote fetch}; 1-3 aborted requests in sequence or overlapping (pairs sampled), and sequences of 40 aborted requests at one point (more than the 32 fetch slots), then a final uncancelled request for the same or newer heads. LOAD requests: a persisted log of 6-80 entries (one head, or a local and a replicated head) is reopened with an entry codec (CreateDBOptions.IO) that, at the k-th entry read of the request, cancels it / fails that read / fails that block for the rest of the request, or the request carries a 50-450 us deadline; 1-3 aborted Load(-1) calls, optionally newer entries persisted through a sibling handle, then a final uncancelled Load(-1) whose entry reads take 0.8-2.3 ms each in three cases of four; every entry has a key of its own, and the log length and the view are read at the moment the final Load returns. " +
 			"distinct = (log length, point, ordinal, number and overlap of aborted requests, newer-heads flag, store type); non-trivial = the cancellation point was actually reached with the request still running (arrivals observed) and at least one entry was still missing when the final request started",
 		Assumptions: []string{"cancellation granularity is the hook points plus the block fetch", "the final request's blocks are fetchable (links up, no fault)"},
 		Cases:       c11Cases,
